@@ -4,6 +4,7 @@
   and slot accesses per API call, read off the generated call skeletons and the generated table of loops.
 -/
 import MRB.Conc.Data
+import MRB.Gen.Kernel
 
 namespace MRB.Props.C10
 open MRB MRB.Conc
@@ -47,14 +48,15 @@ theorem C10_found_after_sync {L : Nat} {hasW : Bool} (hL : 1 ≤ L) {s : St} (r 
   · omega
 
 /-- Bounded number of own steps per call (tie to the source): an availability computation loads one index, `check` makes at
-    most one such computation, an advance stores one index, and the only functions with loops are `wait_for` (the documented
+    most one such computation — and makes it whenever what it remembers is not enough, so a retrying stage always takes a fresh look —, an advance stores one index, and the only functions with loops are `wait_for` (the documented
     busy-wait), the two per-slot `*_init` copies (bounded by the slice) and `poll` (two iterations at most). -/
 theorem C10_source_straight_line :
     Gen.skelProdAvailable = [⟨.succIndex, .none⟩] ∧ Gen.skelWorkAvailable = [⟨.succIndex, .none⟩] ∧ Gen.skelConsAvailable = [⟨.succIndex, .none⟩] ∧
-    Gen.skelCheck = [⟨.available', .none⟩] ∧ Gen.skelAdvance = [⟨.advanceLocal, .count⟩, ⟨.setAtomicIndex, .index⟩] ∧
+    Gen.skelCheck = [⟨.available', .none⟩] ∧ (∀ i c s L n a, Gen.check.cached' i c s L n a = if c ≥ n then c else a) ∧
+    (∀ i c s L n a, Gen.check.ret i c s L n a = decide (c ≥ n ∨ a ≥ n)) ∧ Gen.skelAdvance = [⟨.advanceLocal, .count⟩, ⟨.setAtomicIndex, .index⟩] ∧
     Gen.skelConsReset.map (·.name) = [.succIndex, .setAtomicIndex] ∧ Gen.skelWorkReset.map (·.name) = [.succIndex, .setAtomicIndex] ∧
     Gen.skelDropProd.map (·.name) = [.setProdAlive, .releaseIter, .drop] ∧
     Gen.loops = [("poll", "loop"), ("push_slice_clone_init", "for"), ("push_slice_init", "for"), ("wait_for", "while")] :=
-  ⟨rfl, rfl, rfl, rfl, rfl, rfl, rfl, rfl, rfl⟩
+  ⟨rfl, rfl, rfl, rfl, fun _ _ _ _ _ _ => rfl, fun _ _ _ _ _ _ => rfl, rfl, rfl, rfl, rfl, rfl⟩
 
 end MRB.Props.C10
